@@ -178,7 +178,7 @@ def template_args(fn):
     return out
 
 
-def find_functions(objs, name, cls=None, targs=None, sig=None, want_pattern=False):
+def find_functions(objs, name, cls=None, targs=None, sig=None, want_pattern=False, plain_only=False):
     """All function definitions called `name` (optionally inside record `cls`,
     with the given template arguments (substring match per argument) and a
     substring `sig` of the function type)."""
@@ -201,6 +201,8 @@ def find_functions(objs, name, cls=None, targs=None, sig=None, want_pattern=Fals
                 pass
             if sig is not None and sig not in n.get("type", {}).get("qualType", ""):
                 ok = False
+            if plain_only and in_template:
+                ok = False      # a member template (or its instantiations) of the same name
             if ok:
                 res.append(n)
         tmpl = in_template or k in ("FunctionTemplateDecl",)
